@@ -99,13 +99,13 @@ class ModelError(Exception):
 _SEEN = {}     # entry -> [(case text, result text)] : a few cases per entry, for the extraction cross-check
 
 
-def model_run(entry, cases, timeout=600):
-    """Run the extracted model on a list of wire cases; returns the list of decoded results."""
-    if not cases:
-        return []
+def _model_raw(entry, cases, timeout):
     data = "\n".join(sx(c) for c in cases) + "\n"
-    p = subprocess.run([os.path.join(VERIF, "bin/model"), entry], input=data, capture_output=True,
-                       text=True, timeout=timeout, preexec_fn=_ulimit)
+    return subprocess.run([os.path.join(VERIF, "bin/model"), entry], input=data, capture_output=True,
+                          text=True, timeout=timeout, preexec_fn=_ulimit)
+
+
+def _model_decode(entry, cases, p):
     if p.returncode != 0:
         raise ModelError("model runner failed: rc=%s %s" % (p.returncode, p.stderr[-500:]))
     lines = p.stdout.split("\n")
@@ -124,11 +124,44 @@ def model_run(entry, cases, timeout=600):
     for i, l in enumerate(lines):
         if l.startswith("!") or l.strip() == "-999":
             raise ModelError("model rejected case %d (%s): %s" % (i, l, sx(cases[i])[:300]))
-        r = unsx(l)
-        if False:
-            raise ModelError("model rejected case %d (%s): %s" % (i, l, sx(cases[i])[:300]))
-        out.append(r)
+        out.append(unsx(l))
     return out
+
+
+def model_run(entry, cases, timeout=240):
+    """Run the extracted model on a list of wire cases; returns the list of decoded results."""
+    if not cases:
+        return []
+    try:
+        p = _model_raw(entry, cases, timeout)
+    except subprocess.TimeoutExpired:
+        # the extracted model does not answer in time: find the case (halving the batch and the time) so that the
+        # failure names it; on the unchanged tree this never happens (the model's cost is linear in the case)
+        if len(cases) == 1:
+            raise ModelError("model runner: no answer within %ds on the case %s" % (timeout, sx(cases[0])[:600]))
+        h = len(cases) // 2
+        t2 = max(20, timeout // 2)
+        return model_run(entry, cases[:h], t2) + model_run(entry, cases[h:], t2)
+    return _model_decode(entry, cases, p)
+
+
+def model_run_tolerant(entry, cases, timeout=90, floor=10):
+    """Like model_run, but a case on which the model gives no answer in time yields None instead of aborting the
+    run (the batch is halved, and the time with it, until the case is isolated).  On the unchanged tree the model
+    answers every generated case in milliseconds; a None means the correspondence is broken on that case (the
+    implementation finished a session on which the model, with fuel derived from the implementation's trace, does
+    not)."""
+    if not cases:
+        return []
+    try:
+        p = _model_raw(entry, cases, timeout)
+    except subprocess.TimeoutExpired:
+        if len(cases) == 1:
+            return [None]
+        h = len(cases) // 2
+        t2 = max(floor, timeout // 2)
+        return model_run_tolerant(entry, cases[:h], t2, floor) + model_run_tolerant(entry, cases[h:], t2, floor)
+    return _model_decode(entry, cases, p)
 
 
 def _ulimit():
